@@ -1271,6 +1271,66 @@ func modeSched(a args) {
 			}
 		})
 	}
+	// 3b. exhaustive: every DAG on <=3 stages (all tasks succeed) x every completion order x every explorer
+	// state along it x {caller Cancel, stage-condition error}
+	if !light {
+		for n := 1; n <= 3; n++ {
+			for _, es := range dagEdgeSets(n) {
+				es, n := es, n
+				add(func() {
+					outc := make([]int, n)
+					for _, kind := range []string{"caller", "cond"} {
+						g := mkSpec(n, es, outc, nil)
+						if kind == "cond" {
+							any := false
+							for i := range g.Stages {
+								if len(g.Stages[i].Deps) > 0 {
+									g.Stages[i].Cond = true
+									any = true
+								}
+							}
+							if !any {
+								continue
+							}
+						}
+						key := specKey(g)
+						// enumerate the complete orders first
+						var paths [][]int
+						var prefix []int
+						for {
+							res := runExecution(g, strategy{Choices: prefix, CancelAt: -1}, a.Work)
+							if res.rejected || res.suspect != "" {
+								break
+							}
+							paths = append(paths, res.taken)
+							p := append([]int(nil), res.taken...)
+							i := len(p) - 1
+							for i >= 0 && p[i]+1 >= res.options[i] {
+								i--
+							}
+							if i < 0 {
+								break
+							}
+							p[i]++
+							prefix = p[:i+1]
+						}
+						seen := map[string]bool{}
+						for _, path := range paths {
+							for step := 0; step <= len(path); step++ {
+								k := fmt.Sprint(path[:step], step)
+								if seen[k] {
+									continue
+								}
+								seen[k] = true
+								runOne(a, st, g, strategy{Choices: path[:step], CancelAt: step, CancelKind: kind}, key)
+								out.Count("exhaustive_cancel_states", 1)
+							}
+						}
+					}
+				})
+			}
+		}
+	}
 	par := 8
 	if a.Race {
 		par = 4
